@@ -724,9 +724,11 @@ def rule_kron_layout(ctx: Ctx) -> None:
             continue
         env = _subst_env(body)
         var = [k for k in env if isinstance(env[k], ast.Call) and call_attr(env[k]) == "kron"]
-        if not var:
+        # the chain is whatever the branch binds *last* (intermediate factors may have been given names of their own)
+        last = [st.targets[0].id for st in body if isinstance(st, ast.Assign) and len(st.targets) == 1 and isinstance(st.targets[0], ast.Name) and st.targets[0].id in var]
+        if not var or not last:
             raise AnalysisError("get_two_qubit_controlled_gate: kron chain not found in a branch")
-        where, total, unk = _layout(_kron_factors(env[var[-1]]), {"sigmaz()": "control", g: "target"})
+        where, total, unk = _layout(_kron_factors(env[last[-1]]), {"sigmaz()": "control", g: "target"})
         seen += 1
         ok = not unk and linear.equal(where.get("control"), {c: 1}) and linear.equal(where.get("target"), {t: 1}) and linear.equal(total, {n: 1})
         if ok:
@@ -882,11 +884,12 @@ def rule_node_order(ctx: Ctx) -> None:
                              f"were not inserted in sorted order", func=qualname(fn), construct=f"{qualname(fn)}: sorts the graph nodes")
     fn = repo.anchor(SRC, "_graph_to_density_pure")
     m = repo.module(SRC)
+    from ..core import deref as _deref
     mp = [st for st in ast.walk(fn) if isinstance(st, ast.Assign) and isinstance(st.value, ast.Call) and call_attr(st.value) == "dict"
-          and st.value.args and isinstance(st.value.args[0], ast.Call) and call_attr(st.value.args[0]) == "zip"]
+          and st.value.args and isinstance(_deref(fn, st.value.args[0]), ast.Call) and call_attr(_deref(fn, st.value.args[0])) == "zip"]
     ok = False
     if mp:
-        z = mp[0].value.args[0]
+        z = _deref(fn, mp[0].value.args[0])
         ok = len(z.args) == 2 and norm(z.args[0]).endswith(".nodes()") and norm(z.args[1]).startswith("range(")
     n += 1
     if ok:
